@@ -242,7 +242,7 @@ Definition common_types (e : env) (sl0 : slot) (a : annots) : slot * list warnin
   let '(sl1, w0) := match opt1 a "type" with
                     | Some n => match resolve_name e n with
                                 | Some k => (with_kind sl0 k, [])
-                                | None => (with_kind sl0 KdUnknown, [WUnknownType])
+                                | None => (sl0, [WUnknownType])      (* reported; the declared type is kept *)
                                 end
                     | None => (sl0, [])
                     end in
